@@ -37,7 +37,7 @@ TECHNIQUE = "Hypothesis op-sequence generation vs. dict model with rejecting lis
 LEVEL_TEXT = ("generated-input search over update histories with a reference model and recording/rejecting listeners; "
               "round trip through real files; not exhaustive")
 LEVEL_NOTE = "trusts ruamel.yaml only as part of the code under test; trusts mitmproxy.exceptions"
-QUICK_N, THOROUGH_N = 60_000, 2_000_000
+QUICK_N, THOROUGH_N = 40_000, 1_500_000
 BUDGET_S = (150, 7200)
 
 # name -> (kind, default)
@@ -143,7 +143,8 @@ def _kv(names, decl):
         kind = decl[name][0]
         # explicit selector: one_of() does not honour repetition as a weight
         return st.tuples(st.integers(0, 11), _good(kind), _bad(kind)).map(lambda t: [name, t[2] if t[0] == 0 else t[1]])
-    return st.sampled_from(names).flatmap(one)
+    # (one prebuilt strategy per name: flatmap would rebuild and re-validate a strategy on every draw)
+    return st.one_of(*[one(n) for n in names])
 
 
 _kv_known = _kv(NAMES, DECL)
@@ -186,7 +187,7 @@ def _spec_for(name, kind):
 
 
 def _spec(names, decl):
-    return st.sampled_from(names).flatmap(lambda n: _spec_for(n, decl[n][0]))
+    return st.one_of(*[_spec_for(n, decl[n][0]) for n in names])
 
 
 _spec_known = _spec(NAMES, DECL)
@@ -630,6 +631,29 @@ def _roundtrip(ctx, opts, declared, dflt_of, kind_of, path, defaults, nt, step):
             ctx.fail("roundtrip:changed:%s:%s" % (kind_of(n), cause),
                      "step %d: %s saved as %r, loaded as %r" % (step, n, cur[n], got))
             return
+    # the same file loaded *before* the late options exist (addon options are declared after the config is read):
+    # their values are deferred and must arrive once the options are added and process_deferred() runs
+    late = [n for n in declared if n in LATE]
+    if late:
+        ctx.cls("roundtrip:deferred-load")
+        fresh2 = _mk([n for n in declared if n not in LATE])
+        try:
+            optmanager.load_paths(fresh2, path)
+            for n in late:
+                kind, _ = LATE[n]
+                fresh2.add_option(n, _typespec(kind), dflt_of(n), "late")
+            fresh2.process_deferred()
+        except Exception as e:
+            ctx.fail("roundtrip:deferred-load-raised:%s:%s" % (type(e).__name__, cls), "step %d values=%r: %r" % (step, {n: cur[n] for n in nondefault}, e))
+            return
+        for n in nondefault:
+            got = getattr(fresh2, n)
+            if strict(got) != strict(cur[n]):
+                vals = cur[n] if isinstance(cur[n], list) else [cur[n]]
+                cause = "U+0085" if any(isinstance(v, str) and "\x85" in v for v in vals) else "other"
+                ctx.fail("roundtrip:deferred-changed:%s:%s" % (kind_of(n), cause),
+                         "step %d: %s saved as %r, loaded (deferred) as %r" % (step, n, cur[n], got))
+                return
     # values of the live manager are untouched by saving
     for n in declared:
         if strict(getattr(opts, n)) != strict(cur[n]):
